@@ -69,6 +69,8 @@ Definition check_feed (sel : N) (w : wcase) (cs : list int * (list (list int) * 
       else if want 13 && negb (bi closed) then mkV 304 0
       else if want 9 && N.eqb cls 2 && effect then mkV 300 0
       else if want 12 && N.eqb cls 1 && negb (bi effok) then mkV 301 0
+      else if want 16 && N.eqb cls 1 && negb (bi effok) && negb (match plabel (w_r w) with [] => true | _ => false end) then mkV 308 0
+      else if want 9 && N.eqb cls 8 && effect then mkV 300 0
       else if want 14 && (N.eqb cls 3 || N.eqb cls 7) && effect then mkV 306 0
       else if want 16 && N.eqb cls 5 && (effect || bi wrote) then mkV 307 0
       else if want 13 && N.eqb cls 6 && (effect || (65536 <? ni consumed)) then mkV 305 0
